@@ -108,14 +108,17 @@ def _one(rc: RuleCtx, name: str):
         out = ev.eval_loop_body(fi, loop, benv)
     except Unsupported as e:
         raise AnalysisError(f"{fi.qualname}: loop body not modelled: {e}")
-    if out.breaks or out.continues or out.returns:
-        raise AnalysisError(f"{fi.qualname}: break/continue/return inside the pass - shape not recognised")
+    if out.continues or out.returns:
+        raise AnalysisError(f"{fi.qualname}: continue/return inside the pass - shape not recognised")
     appends = [e for e in out.events if e.kind == "append" and e.target == L]
-    other_writes = [e for e in out.events if e.target == L and e.kind not in ("append",)]
+    bulk = []
+    if out.breaks:
+        bulk = _early_exit(rc, fi, name, loop, out, L, i, t, x, carried, state)
+    other_writes = [e for e in out.events if e.target == L and e.kind not in ("append",) and e not in bulk]
     if other_writes:
         res.violation("L1", mod, fi.name, other_writes[0].node, f"the label list is modified by .{other_writes[0].kind}() inside the pass",
                       construct="label list writes")
-    lo_n, hi_n = count_true([e.guard for e in appends])
+    lo_n, hi_n = count_true([e.guard for e in appends] + list(out.breaks))
     if (lo_n, hi_n) == (1, 1):
         res.ok("L1", f"{fi.qualname}:one-append", f"{len(appends)} append site(s), guards partition the iteration (exactly one on every path)")
     else:
@@ -157,6 +160,19 @@ def _one(rc: RuleCtx, name: str):
                     res.violation("L1", mod, fi.name, e.node,
                                   f"the label appended ({v}) differs from the label carried to the next iteration ({v2}) under {g_and(gg, g2)}",
                                   str(v2), str(v), construct="label carried")
+    for e in bulk:
+        # the early exit labels the rest with the label it has at that point: previous label + {0, 1}
+        ra = e.args[0].atoms() if isinstance(e.args[0], Rat) else []
+        lv = None
+        if len(ra) == 1 and ra[0].name == "repeat":
+            inner = ra[0].args[0].atoms()
+            if len(inner) == 1 and inner[0].name == "vec" and len(inner[0].args) == 1:
+                lv = inner[0].args[0]
+        d = lv.sub(state[lab]).is_const() if lv is not None else None
+        if d == 1:
+            inc_guards.append(e.guard)
+        elif d != 0:
+            raise AnalysisError(f"{fi.qualname}: label used by the early exit not recognised")
     if step_ok:
         res.ok("L1", f"{fi.qualname}:step", "appended label = previous label + {0,1} and is the label carried forward")
     inc = g_or(*inc_guards) if inc_guards else FALSE
@@ -233,6 +249,55 @@ def _one(rc: RuleCtx, name: str):
             res.ok("L3", f"{fi.qualname}:{var}", f"init {init}; new cluster -> {on_inc}; join -> {_short(otherwise, 80)}")
     if not ref_state:
         res.ok("L3", f"{fi.qualname}", "no carried state besides the label")
+
+
+def _early_exit(rc: RuleCtx, fi, name, loop, out, L, i, t, x, carried, state):
+    """A pass that stops early and labels every remaining point at once claims that all of them join the current
+    cluster.  That is justified only where the linkage distance of a remaining point is bounded by that of the last
+    point (complete linkage, fixed anchor, x sorted) and the exit guard implies  distance(last point) < t  -- strictly:
+    a tie distance == t starts a new cluster."""
+    res = rc.res
+    mod = fi.module
+    if len(out.breaks) != 1:
+        raise AnalysisError(f"{fi.qualname}: {len(out.breaks)} early exits in the pass - shape not recognised")
+    gb = out.breaks[0]
+    bulk = [e for e in out.events if e.kind == "extend" and e.target == L and g_implies(gb, e.guard) and g_implies(e.guard, gb)]
+    if len(bulk) != 1:
+        raise AnalysisError(f"{fi.qualname}: the pass is left early without labelling the remaining points in one step - shape not recognised")
+    if name != "complete_linkage":
+        raise AnalysisError(f"{fi.qualname}: early exit from the pass - only justified for a fixed anchor (complete linkage); shape not recognised")
+    aux = [n for n in carried if isinstance(out.env.get(n), (Rat, PW)) and any(isinstance(v, Rat) and v.equals(i) for _g, v in cases_of(out.env.get(n)))]
+    # anchor on the exit path: the carried index variable as it stands when the loop is left
+    anchors = []
+    for n in aux:
+        for g, v in cases_of(out.env.get(n)):
+            if isinstance(v, Rat) and g_sat(g_and(g, gb)):
+                anchors.append(v)
+    # out.env is the fall-through state; the exit path has its own: re-evaluate the anchor under the exit guard
+    R = _at(x, C(-1)) - _at(x, C(0))
+    ok = False
+    want = None
+    for a in ([i] + anchors):
+        want = canon_sign((_at(x, C(-1)) - _at(x, a)) / R - t, OPS["<"])
+        if g_implies(gb, want):
+            ok = True
+            break
+    v = bulk[0].args[0]
+    cnt_ok = False
+    if isinstance(v, Rat):
+        ra = v.atoms()
+        if len(ra) == 1 and ra[0].name == "repeat" and ra[0].args[1].equals(sym("N") - i):
+            cnt_ok = True
+    if not cnt_ok:
+        res.violation("L1", mod, fi.name, bulk[0].node, "the early exit does not label exactly the remaining points i..n-1 (one label per point)",
+                      _short(v, 160), "[label] * (len(points) - i)", construct="early exit count")
+    if ok:
+        res.ok("L2", f"{fi.qualname}:early-exit", "early exit only when even the last point is strictly closer than t to the anchor")
+    else:
+        res.violation("L2", mod, fi.name, bulk[0].node,
+                      "the pass stops early and puts every remaining point in the current cluster although the last point can be at distance >= t from its anchor "
+                      "(a tie distance == t must start a new cluster)", _short(gb, 300), str(want), construct="early exit guard")
+    return bulk
 
 
 def _syms(v):
